@@ -11,9 +11,9 @@ git -C $wt apply "$patch" || { echo "PATCH DOES NOT APPLY"; git -C /repo worktre
 out=/verif/work/mut/$name
 rm -rf $out; mkdir -p $out
 for id in "$@"; do
-  VERIF_REPO=$wt VERIF_BUILD=$out/build VERIF_OUT=$out /verif/bin/check $id $tier > $out/$id.log 2>&1
+  VERIF_REPO=$wt VERIF_BUILD=$out/build VERIF_CACHE=$out/cache VERIF_OUT=$out /verif/bin/check $id $tier > $out/$id.log 2>&1
   rc=$?
   echo "mutant=$name check=$id tier=$tier exit=$rc violations=$(grep -c '^VIOLATION' $out/$id.log) $(tail -1 $out/$id.log)"
 done
 git -C /repo worktree remove --force $wt
-rm -rf $out/build
+rm -rf $out/build $out/cache
